@@ -65,6 +65,7 @@ type multi struct {
 	specByClass map[string]*taskSpec
 	obs   []*obs
 	faults []*fault
+	noMoreFaults bool
 }
 
 func (m *multi) viol(p, oracle, sig, format string, a ...any) {
@@ -205,6 +206,9 @@ func bodyMulti(c *hk.Ctx, prop string) {
 			return nil
 		}
 		ts := &simmesos.TaskScript{OnCommand: map[string]simmesos.Outcome{}, HookExit: sp.HookExit}
+		if prop == "C18" {
+			ts.StartDelay = time.Duration(c.F(4, "staging-s")) * time.Second
+		}
 		switch sp.Start {
 		case "fails":
 			ts.StartFails = true
@@ -217,6 +221,11 @@ func bodyMulti(c *hk.Ctx, prop string) {
 		return ts
 	}
 
+	if prop == "C06" && c.F(6, "kill-calls-fail") == 5 {
+		s.mesos.FailCall = func(inc int, typ string) bool {
+			return typ == "KILL" && !m.noMoreFaults && c.F(3, "kill-fails") == 2
+		}
+	}
 	ci := s.bootCore()
 	if c.Violated() || ci.rpc == nil {
 		return
@@ -305,6 +314,32 @@ func (m *multi) cleanup() {
 	m.mu.Unlock()
 }
 
+func (m *multi) cleanupIds() {
+	tr, err := m.rpc().rpc.GetTasks(context.Background(), &pb.GetTasksRequest{})
+	if err != nil || tr == nil || len(tr.Tasks) == 0 {
+		return
+	}
+	var ids []string
+	for _, t := range tr.Tasks {
+		if m.c.W(2, "pick-task") == 1 {
+			ids = append(ids, t.TaskId)
+		}
+	}
+	if len(ids) == 0 {
+		return
+	}
+	m.c.Count("probe.cleanup_by_id")
+	r := &request{Op: "CLEANUP-IDS"}
+	m.mu.Lock()
+	m.sc.Requests = append(m.sc.Requests, r)
+	r.invoke = m.s.mesos.Seq()
+	m.mu.Unlock()
+	_, err = m.rpc().rpc.CleanupTasks(context.Background(), &pb.CleanupTasksRequest{TaskIds: ids})
+	m.mu.Lock()
+	r.ret, r.done, r.Err = m.s.mesos.Seq(), true, errStr(err)
+	m.mu.Unlock()
+}
+
 func (m *multi) dumpCalls() {
 	for _, cl := range m.s.mesos.Calls {
 		m.c.Logf("mesos call seq=%d t=%v inc=%d %s fw=%s offers=%v tasks=%v %s err=%s", cl.Seq, cl.At, cl.Inc, cl.Type, cl.FwID, cl.Offers, cl.Tasks, cl.Detail, cl.Err)
@@ -359,6 +394,20 @@ func (m *multi) runOwnership() {
 				}
 				if c.W(6, "cleanup-now") == 5 {
 					m.cleanup()
+				}
+				if m.prop == "C04" && c.W(5, "cleanup-by-id") == 4 {
+					// an operator cleaning up "the tasks on that host": ids taken from GetTasks
+					m.cleanupIds()
+				}
+				if m.prop == "C06" && c.F(8, "executor-lost") == 7 {
+					for tid := range e.owned {
+						if st := m.s.mesos.Task(tid); st != nil && st.Alive() {
+							c.Count("fault.executor_lost_before_destroy")
+							m.s.mesos.ExecutorLost(st.ExecID)
+							simrt.Sleep(200 * time.Millisecond)
+							break
+						}
+					}
 				}
 				if c.W(8, "leave-env") != 7 {
 					m.destroy(e, c.W(3, "force") == 2, c.W(5, "keep") == 4, c.W(2, "allow-running") == 1)
@@ -445,6 +494,19 @@ func (m *multi) checkOwnershipHistory(final *obs) {
 			}
 		}
 	}
+	// C04: the tasks of an environment that is still listed stay known to the core
+	for _, e := range m.envs {
+		if !e.Created || e.destroyReqSeq != 0 || final.envs[e.ID] == "" {
+			continue
+		}
+		for tid := range e.owned {
+			if st := m.s.mesos.Task(tid); st != nil && st.Alive() {
+				if _, known := final.owner[tid]; !known {
+					m.viol("C04", "owned-task-forgotten", "task-vanished-from-listing", "task %s, owned by the listed environment %d and alive, is no longer reported by GetTasks", tid, e.Idx)
+				}
+			}
+		}
+	}
 	// C04: a create that conflicts on a detector fails with the documented error
 	for _, e := range m.envs {
 		if !e.Created && strings.Contains(e.CreateErr, "already in use") {
@@ -471,7 +533,7 @@ func (m *multi) checkOwnershipHistory(final *obs) {
 				}
 			}
 		}
-		if !e.Keep {
+		if !e.Keep && m.prop != "C06" {
 			for tid := range e.owned {
 				killed := false
 				for _, k := range kills {
@@ -498,9 +560,20 @@ func (m *multi) checkOwnershipHistory(final *obs) {
 	}
 	// tasks launched for environments that are gone and never became owned fall to the next cleanup
 	if m.prop == "C06" {
+		m.noMoreFaults = true
 		m.cleanup()
 		simrt.Sleep(10 * time.Second)
 		after := m.observe()
+		for _, e := range m.envs {
+			if !(e.Destroyed || !e.Created) || e.Keep {
+				continue
+			}
+			for tid := range e.owned {
+				if st := m.s.mesos.Task(tid); st != nil && st.Alive() && !st.Killed {
+					m.viol("C06", "task-not-killed", "alive-and-never-asked-to-terminate", "task %s was owned by environment %d, which is gone, but was never asked to terminate (not even by the following CleanupTasks) and is still alive", tid, e.Idx)
+				}
+			}
+		}
 		liveEnv := map[string]bool{}
 		for id := range after.envs {
 			liveEnv[id] = true
@@ -554,7 +627,7 @@ func (m *multi) runC03() {
 	m.observe()
 	// victim and failure kind
 	vt := wf.Tasks[c.W(len(wf.Tasks), "victim")]
-	kinds := []string{"task-failed", "task-lost", "task-killed", "executor-lost", "agent-lost", "internal-error"} // a process exiting with status 0 (TASK_FINISHED) is not among the failures the statement lists
+	kinds := []string{"task-failed", "task-lost", "task-killed", "executor-lost", "agent-lost", "internal-error", "agent-lost-failure-event-only"} // a process exiting with status 0 (TASK_FINISHED) is not among the failures the statement lists
 	f := &fault{Kind: kinds[c.F(len(kinds), "failure-kind")], Victim: vt.Role, Critical: vt.Critical, AtMs: c.F(3000, "failure-at-ms")}
 	m.faults = append(m.faults, f)
 	m.sc.Notes = append(m.sc.Notes, fmt.Sprintf("fault %s on %s (critical=%v) in %s", f.Kind, f.Victim, f.Critical, map[bool]string{true: "RUNNING", false: "CONFIGURED"}[running]))
@@ -604,6 +677,11 @@ func (m *multi) runC03() {
 		m.s.mesos.ExecutorLost(victim.ExecID)
 	case "agent-lost":
 		othersOnVictimScope = true
+		m.s.mesos.AgentLost(victim.Agent)
+	case "agent-lost-failure-event-only":
+		// the per-task TASK_LOST updates are held back (the master retries them much later)
+		othersOnVictimScope = true
+		m.s.mesos.HoldTerminalUpdates = 400 * time.Second
 		m.s.mesos.AgentLost(victim.Agent)
 	case "internal-error":
 		m.s.mesos.DeviceEvent(victim, occpb.DeviceEventType_TASK_INTERNAL_ERROR)
@@ -715,6 +793,19 @@ func (m *multi) runC18() {
 		crashSeq := m.s.mesos.Seq()
 		m.s.crash()
 		simrt.Sleep(time.Duration(500+c.W(5000, "down-ms")) * time.Millisecond)
+		if c.F(3, "reconcile-lost-after-restart") == 2 {
+			// the connection breaks right after SUBSCRIBED: the first RECONCILE of the new life fails
+			failed := false
+			m.s.mesos.FailCall = func(inc int, typ string) bool {
+				if typ == "RECONCILE" && !failed {
+					failed = true
+					c.Count("fault.reconcile_call_lost")
+					c.S.Go("drop-subscription", func() { m.s.mesos.DropSubscription() })
+					return true
+				}
+				return false
+			}
+		}
 		ci := m.s.bootCore()
 		if ci.rpc == nil {
 			return
@@ -760,6 +851,9 @@ func (m *multi) runC18() {
 		m.control(e, "START_ACTIVITY")
 	}
 	before := m.observe()
+	for _, cl := range m.s.mesos.CallsOfType("SUBSCRIBE") {
+		firstFw = cl.FwID
+	}
 	killsBefore := len(m.s.mesos.CallsOfType("KILL"))
 	c.Count("fault.subscription_dropped")
 	m.s.mesos.DropSubscription()
@@ -768,6 +862,11 @@ func (m *multi) runC18() {
 	m.dumpCalls()
 	c.NonTrivial = true
 	c.State("reconnect")
+	if subs := m.s.mesos.CallsOfType("SUBSCRIBE"); len(subs) > 1 {
+		if last := subs[len(subs)-1]; !strings.Contains(last.Detail, "requested-framework-id="+firstFw) {
+			m.viol("C18", "framework-identity", "new-identity-after-reconnect", "after a connection drop the core re-subscribed with %q, it was registered as %s", last.Detail, firstFw)
+		}
+	}
 	kills := m.s.mesos.CallsOfType("KILL")
 	for _, k := range kills[killsBefore:] {
 		for _, tid := range k.Tasks {
